@@ -427,7 +427,24 @@ def check_history(ctx, text, auto_claim, lf, steps, fails, gen=None):
         done = []
         n0 = len(fails)
         it = iter(steps) if steps is not None else gen(d)
-        for idx, side, new in it:
+        for step in it:
+            if isinstance(step, dict):
+                # another kind of edit in between (arithmetic on a number in place, a child replaced / inserted / removed):
+                # the spacing accessors of every model it leaves behind must still work on the document's store
+                done.append(step)
+                if hasattr(ctx, 'current'):
+                    ctx.current({'check': 'hist', 'text': text, 'auto_claim': auto_claim, 'lf': lf, 'steps': list(done)})
+                try:
+                    edits.apply_op(d.root, step['edit'])
+                except edits.DonorError:
+                    pass
+                d.refresh()
+                d.nodes = [(p, m) for p, m in intro.walk(d.root) if m is not d.root]
+                ctx.count('history:other-edit:' + step['edit']['kind'])
+                continue
+            idx, side, new = step
+            if idx >= len(d.nodes):
+                continue
             done.append([idx, side, new])
             rep = {'check': 'hist', 'text': text, 'auto_claim': auto_claim, 'lf': lf, 'steps': list(done)}
             if hasattr(ctx, 'current'):
@@ -449,6 +466,22 @@ def check_history(ctx, text, auto_claim, lf, steps, fails, gen=None):
         session.set_lf(None)
 
 
+OTHER_EDITS = ('numop', 'opt-set', 'req-set', 'rep-insert', 'rep-append', 'rep-pop', 'rep-delitem', 'view-append', 'view-insert',
+               'value-set', 'meta-setkey', 'cost-set', 'rep-setitem')
+
+
+def _raw_path(d, api_path):
+    """The private-field path (as intro.walk yields it) of the model at an API path - best effort: same model object."""
+    try:
+        target = intro.resolve(d.root, api_path)
+    except Exception:
+        return ('?',)
+    for p, m in d.nodes:
+        if m is target:
+            return p
+    return ('?',)
+
+
 def gen_history(ctx, n):
     r = ctx.rng
     def gen(d):
@@ -456,6 +489,16 @@ def gen_history(ctx, n):
         strings = new_strings(r, len(FIXED) + 4)
         # phases: widen a region, collapse another - blocks grow past 1.5x and neighbours shrink under half
         for _ in range(n):
+            if r.random() < 0.3:
+                op = edits.gen_op(r, d.root, kinds=('numop',) if r.random() < 0.5 else OTHER_EDITS)
+                if op is not None:
+                    yield {'edit': op}
+                    cand = [i for i, (p, m) in enumerate(d.nodes) if has_acc(m)]
+                    # right after the edit: the models at and around the edited place
+                    near = [i for i in cand if list(d.nodes[i][0])[:len(op['path'])] == list(_raw_path(d, op['path']))] or cand
+                    for i in r.sample(near, min(len(near), 10)):
+                        yield i, r.choice('ab'), r.choice(['', ' ', '  ', '\n', r.choice(strings)])
+                    continue
             if not cand:
                 return
             lo = r.randrange(len(cand))
@@ -550,7 +593,7 @@ def replay(ctx, data):
         check_get(ctx, d, fails)
         check_sides(ctx, d, fails)
     elif rep.get('check') == 'hist':
-        check_history(ctx, rep['text'], rep['auto_claim'], rep['lf'], [tuple(x) for x in rep['steps']], fails)
+        check_history(ctx, rep['text'], rep['auto_claim'], rep['lf'], [x if isinstance(x, dict) else tuple(x) for x in rep['steps']], fails)
     elif rep.get('check') == 'totok':
         s = rep['s']
         return ''.join(t.raw_text for t in _sa._text_to_tokens(s)) == s or not _LANG.fullmatch(s)
